@@ -1480,7 +1480,10 @@ static void* pe_parse_delayed_imports(PE* pe)
           sizeof(IMPORT_FUNCTION));
 
       if (imported_func == NULL)
+      {
+        yr_free(func_name);
         break;
+      }
 
       imported_func->name = func_name;
       imported_func->rva = func_rva;
